@@ -11,14 +11,16 @@ Local Open Scope Z_scope.
 
 Definition NR (n:node) (ev:list event) (n':node) : Prop := clock_ok n -> exists p, Run false n ev p n'.
 
-Lemma Run_clock fwd n ev p n' : Run fwd n ev p n' -> n_w64 n' = n_w64 n /\ n_now n' = n_now n.
+Lemma Run_clock fwd n ev p n' : Run fwd n ev p n' -> n_w64 n' = n_w64 n /\ n_now n' = n_now n /\ n_mode n' = n_mode n.
 Proof.
-  induction 1; try (split; reflexivity).
-  - destruct H as (A & _ & B & _). split; assumption.
-  - destruct IHRun1, IHRun2. split; congruence.
+  induction 1; try (repeat split; reflexivity).
+  - destruct H as (A & M & B & _). repeat split; assumption.
+  - destruct IHRun1 as (? & ? & ?), IHRun2 as (? & ? & ?). repeat split; congruence.
 Qed.
 Lemma clock_ok_run fwd n ev p n' : Run fwd n ev p n' -> clock_ok n -> clock_ok n'.
-Proof. intros R C. destruct (Run_clock _ _ _ _ _ R) as [A B]. unfold clock_ok in *. rewrite A, B. exact C. Qed.
+Proof.
+  intros R C. destruct (Run_clock _ _ _ _ _ R) as (A & B & M). unfold clock_ok, claims_addresses in *. rewrite A, B, M. exact C.
+Qed.
 
 Lemma NR_refl n : NR n [] n.
 Proof. intros _. exists []. apply Run_refl. Qed.
@@ -325,7 +327,10 @@ Proof.
   { destruct (rsend r0 _ i) as [[r1 ev1] ok1] eqn:E1. destruct (rsend r1 _ i) as [[r2' ev2] ok2] eqn:E2. injection H as <- <-.
     eapply NR_trans; [eapply rsend_nr; [exact E1|exact Hi|exact A]|eapply rsend_nr; [exact E2|exact Hi|apply NR_refl]]. }
   destruct (rpgn =? 126996); [eapply send_product_info_nr; eassumption|].
-  destruct (rpgn =? 126998); [eapply send_config_info_nr; eassumption|].
+  destruct (rpgn =? 126998).
+  { destruct (c_confinfo (r_cfg r0)); [|eapply send_config_info_nr; eassumption].
+    destruct ad; [|injection H as <- <-; exact A].
+    destruct (rsend r0 _ i) as [[r1 ev1] ok1] eqn:E1. injection H as <- <-. eapply rsend_nr; [exact E1|exact Hi|exact A]. }
   destruct (match c_iso_handler (r_cfg r0) with Some acc => _ | None => _ end) as [[|]|].
   - injection H as <- <-. eapply NR_after; [exact A|apply NR_note; reflexivity].
   - destruct ad; [|injection H as <- <-; exact A].
@@ -373,7 +378,8 @@ Proof.
   unfold send_pending_info_dev. intros H Hi. cbv zeta in H.
   destruct (send_pending_tp (chk_dev r i) i) as [r1 ev1] eqn:E1.
   assert (A1: NR (rn r) ev1 (rn r1)) by (eapply send_pending_tp_nr; [exact E1|exact Hi|nr]).
-  destruct (let '(r', ev) := _ in _) as [r2' ev2] eqn:E2 in H.
+  match type of H with context [if sched_is_time ?a ?b (x_pend_claim ?c) then ?t else ?e] =>
+    destruct (if sched_is_time a b (x_pend_claim c) then t else e) as [r2' ev2] eqn:E2 end.
   assert (A2: NR (rn r1) ev2 (rn r2')).
   { destruct (sched_is_time _ _ (x_pend_claim _)); [|injection E2 as <- <-; apply NR_refl].
     destruct (rsend_claim r1 255 i) as [r' ev'] eqn:E. injection E2 as <- <-. rewrite rn_set_pending.
@@ -413,7 +419,7 @@ Proof.
   destruct (ss_is_time t1 _); [|injection H as <- <-; aux_facts; rewrite F; exact A].
   destruct (millis64 ra) as [rb t2] eqn:M2.
   destruct (rsend _ _ i) as [[r3 ev3] ok] eqn:E. injection H as <- <-. aux_facts. cbn [rn with_devx].
-  eapply rsend_nr; [exact E|exact Hi|]. cbn [rn with_devx]. rewrite F0, F. exact A.
+  eapply rsend_nr; [exact E|exact Hi|]. cbn [rn with_devx]. rewrite F, F0. exact A.
 Qed.
 
 Lemma send_heartbeat_nr : forall k r i r2 ev, send_heartbeat k r i = (r2, ev) -> 0 <= i -> NR (rn r) ev (rn r2).
@@ -472,7 +478,8 @@ Proof.
       pose proof (handle_system_nr _ _ _ _ E2) as A2. rewrite rn_chk_slot in A2.
       destruct (rx_loop gf k _) as [r4 ev4] eqn:E4. injection H as <- <-.
       pose proof (IH _ _ _ E4) as A4. rewrite rn_set_slot in A4.
-      eapply NR_trans; [exact A1|]. eapply NR_trans; [exact A2|]. eapply NR_trans; [apply NR_note; reflexivity|exact A4].
+      eapply NR_trans; [exact A1|]. eapply NR_trans; [exact A2|].
+      apply (NR_trans (rn r2') [EvDeliver (slot_msg (get_slot (chk_slot r1 idx) idx))] (rn r2') ev4 (rn r4)); [apply NR_note; reflexivity|exact A4].
     + destruct (rx_loop gf k r1) as [r4 ev4] eqn:E4. injection H as <- <-.
       eapply NR_trans; [exact A1|eapply IH; exact E4].
 Qed.
